@@ -516,7 +516,7 @@ func (ctx *crashCtx) checkImage(k int, cut map[int]int, power bool, pos2 int) {
 		}
 	}
 	journalOn := r.C.Prop == "C07"
-	if r.C.Prop == "C04" {
+	if r.C.Prop == "C04" || r.C.Prop == "C03" {
 		// batches the crashed process had begun since its last Open
 		n := 0
 		curOp := -1
@@ -571,6 +571,22 @@ func (ctx *crashCtx) checkImage(k int, cut map[int]int, power bool, pos2 int) {
 	}
 	if r.C.Prop != "C07" {
 		return
+	}
+	// ---- C07: "an unfinished merge is ignored" also by the next Merge: on an image that still holds a merge
+	// directory, the recovered database deletes and rewrites keys, merges again and restarts twice (seeded change
+	// S53: leftovers of the interrupted merge that the second merge built on)
+	if tree.Dirs["db-merge"] && !power {
+		rec4 := ctx.recoverImage(tree, cfg, false, ctx.mergeAgain(cfg))
+		os.RemoveAll(rec4.root)
+		if rec4.oracle == "infra" {
+			r.Infra = rec4.failure
+			return
+		}
+		if rec4.failure != "" {
+			pin(-1)
+			r.fail(rec4.oracle, kind, "%s: %s", where, rec4.failure)
+			return
+		}
 	}
 	// ---- C07: re-running an interrupted adoption, a second crash during the retry, a third clean Open ----
 	j2 := rec.fs.Journal
@@ -676,7 +692,7 @@ func (ctx *crashCtx) usability(cfg Config) func(db *kv.DB, rec *recovery) *kv.DB
 		want := State(rec.dump.Vals).clone()
 		want[string(key)] = val
 		also := map[string]bool{string(key): true}
-		if r.C.Prop == "C04" {
+		if ctx.followBatches > 0 {
 			// later history: as many fresh batches as the crashed process had begun since its last Open, so that a
 			// later batch can never seal the leftovers of the crashed one (whatever identifies a batch)
 			for b := 0; b < ctx.followBatches; b++ {
@@ -733,5 +749,89 @@ func (ctx *crashCtx) usability(cfg Config) func(db *kv.DB, rec *recovery) *kv.DB
 		}
 		r.inc("usability_rounds")
 		return db2
+	}
+}
+
+// mergeAgain is the follow-up after recovering from a crash that left a merge directory behind: further deletes
+// and overwrites, a second Merge, and two restarts; the mapping must be the recovered one plus those writes.
+func (ctx *crashCtx) mergeAgain(cfg Config) func(db *kv.DB, rec *recovery) *kv.DB {
+	r := ctx.r
+	return func(db *kv.DB, rec *recovery) *kv.DB {
+		want := State(rec.dump.Vals).clone()
+		keys := append([]string(nil), rec.dump.Keys...)
+		also := map[string]bool{}
+		for k := range r.Ever {
+			also[k] = true
+		}
+		var err error
+		var what string
+		p, fr := protect(func() {
+			// every other recovered key is deleted, one is overwritten, one new key is written
+			for i, k := range keys {
+				if i%2 == 0 {
+					if err = db.Delete([]byte(k)); err != nil {
+						what = "Delete"
+						return
+					}
+					delete(want, k)
+				} else if i == 1 {
+					v := []byte(fmt.Sprintf("rewritten-after-recovery-%d", ctx.images))
+					if err = db.Put([]byte(k), v); err != nil {
+						what = "Put"
+						return
+					}
+					want[k] = v
+				}
+			}
+			nk := "~after-recovery"
+			if err = db.Put([]byte(nk), []byte("new")); err != nil {
+				what = "Put"
+				return
+			}
+			want[nk] = []byte("new")
+			also[nk] = true
+			if merr := db.Merge(); merr != nil {
+				if !strings.Contains(merr.Error(), "merge abandoned") {
+					err, what = merr, "Merge"
+					return
+				}
+				r.inc("second_merge_abandoned")
+			}
+		})
+		if p != "" || err != nil {
+			rec.failure = fmt.Sprintf("after the recovery, %s: %s %v (%s)", what, clip(p, 200), err, fr)
+			rec.oracle = "recovery-unusable"
+			return db
+		}
+		for round := 1; round <= 2; round++ {
+			p, _ = protect(func() { err = db.Close() })
+			if p != "" || err != nil {
+				rec.failure = fmt.Sprintf("Close after recovery and a second merge: %s %v", clip(p, 200), err)
+				rec.oracle = "recovery-unusable"
+				return nil
+			}
+			db = nil
+			var db2 *kv.DB
+			p, fr = protect(func() { db2, err = kv.Open(r.options(cfg, filepath.Join(rec.root, "db"))) })
+			if p != "" || err != nil {
+				rec.failure = fmt.Sprintf("restart %d after recovery, further writes and a second Merge: Open: %s %v (%s)", round, clip(p, 200), err, fr)
+				rec.oracle = "recovery-unusable"
+				return nil
+			}
+			db = db2
+			d2, f := dumpDB(db, also)
+			if f != "" {
+				rec.failure = fmt.Sprintf("dump at restart %d after recovery and a second Merge: %s", round, f)
+				rec.oracle = "recovery-unusable"
+				return db
+			}
+			if diff := diffState(d2, want); diff != "" {
+				rec.failure = fmt.Sprintf("after the recovery, deletes, overwrites, a second Merge and %d restart(s) the mapping is not the recovered one plus those writes: %s", round, diff)
+				rec.oracle = "second-merge-after-crash"
+				return db
+			}
+		}
+		r.inc("second_merge_rounds")
+		return db
 	}
 }
